@@ -22,7 +22,7 @@ LEVEL_TEXT = (
     "For results with 1, 2 and 3 segments (parameter changes in between) of two models - 'rich': derived parameter, "
     "derived variable of a parameter, readout, surrogate, parameter-named coefficient, coefficient computed from a "
     "parameter nothing else uses; 'lean': the same without any derived quantity that takes a parameter - every sequence "
-    "of the 108 view reads and 2 tampering operations is explored breadth-first with states hashed on the lazily filled "
+    "of the 108 view reads and 3 tampering operations (one flips the sign of the parameter-valued coefficients) is explored breadth-first with states hashed on the lazily filled "
     "tables, the stored trajectory and the model's parameter values, to a fixpoint (reached at depth 4; cap 6 quick / "
     "10 thorough). Every returned table is compared with the reference evaluator at each row's state, "
     "time and segment parameters; N.v = dx/dt; stacked = per-segment; producers/consumers; three normalisation shapes."
@@ -45,7 +45,8 @@ SEG_PARAMS = [
     {"k1": 2.0, "k2": 1.0, "n": 3.0, "c": 0.5, "m": 2.0},
     {"k1": 1.0, "k2": 0.5, "n": 2.0, "c": 1.0, "m": 1.0},  # thorough tier: back to the first segment's values
 ]
-TAMPER = [{"k1": 9.0, "n": 7.0, "c": 3.0}, {"k2": 4.0, "n": 0.25, "m": 5.0}]
+# the third one flips the sign of both parameter-valued coefficients: what produced y during the simulation would consume it now
+TAMPER = [{"k1": 9.0, "n": 7.0, "c": 3.0}, {"k2": 4.0, "n": 0.25, "m": 5.0}, {"n": -2.0, "m": -1.5}]
 
 
 # model variants: "rich" has a derived parameter and a derived variable that take parameters (every parameter update
@@ -220,7 +221,7 @@ def _views():
 
 
 VIEWS = _views()
-OPS = [v[0] for v in VIEWS] + ["TAMPER0", "TAMPER1"]
+OPS = [v[0] for v in VIEWS] + [f"TAMPER{i}" for i in range(len(TAMPER))]
 COEF = {"v1": lambda p: p["n"], "v2": lambda p: p["m"], "sf": lambda p: 0.5, "v0": lambda p: 1.0}
 
 
